@@ -356,9 +356,9 @@ Qed.
 Theorem inv3_reachable s : Reach3 s → Inv3 s.
 Proof. induction 1; [apply inv3_init|by apply inv3_step]. Qed.
 
-Theorem references_exact s : Reach3 s → ReferencesExact s.
+Lemma references_exact_inv s : Inv3 s → ReferencesExact s.
 Proof.
-  intros [_ [H1 H2 H3 H4 H5 H6 H7 H8 H9]]%inv3_reachable. unfold ReferencesExact. split_and!; try done.
+  intros [_ [H1 H2 H3 H4 H5 H6 H7 H8 H9]]. unfold ReferencesExact. split_and!; try done.
   all: apply stdpp.sets.set_eq; intros x; (split; [|by intros ?%not_elem_of_empty]).
   - intros (G & HG & Ht)%H1. destruct (H7 _ _ HG) as (A & _). specialize (A _ Ht). lia.
   - intros (G & HG & Ht)%H2. destruct (H7 _ _ HG) as (_ & A & _). specialize (A _ Ht). lia.
@@ -366,6 +366,9 @@ Proof.
   - intros Hx%H4. specialize (H8 _ _ Hx). lia.
   - intros Hx%H5. specialize (H9 _ _ Hx). lia.
 Qed.
+
+Theorem references_exact s : Reach3 s → ReferencesExact s.
+Proof. intros Hr. by apply references_exact_inv, inv3_reachable. Qed.
 
 (* C06 for layer 3: a refused operation changes nothing *)
 Theorem error_is_noop3 s o : Inv3 s → is_err (step3 s o).2 = true → (step3 s o).1 = s.
